@@ -13,7 +13,7 @@
 use crate::prng::{run_seed, Rng};
 use crate::report::{self, ddmin, Violation};
 use crate::util::{guarded, panic_class, Ctx};
-use raptorq::{verif_plan_cache, EncodingPacket, ObjectTransmissionInformation, SourceBlockEncoder};
+use raptorq::{verif_plan_cache, Encoder, EncodingPacket, ObjectTransmissionInformation, SourceBlockEncoder};
 use serde::{Deserialize, Serialize};
 use serde_json::json;
 use std::collections::{BTreeSet, HashMap};
@@ -26,6 +26,14 @@ pub struct Req {
     /// > 0: not a request but a jump of the simulated clock by this many seconds (idle period)
     #[serde(default, skip_serializing_if = "is_zero")]
     pub jump_s: u32,
+    /// true: an *object* of two blocks (k + 1 and k symbols) through `Encoder::new`, which consults the
+    /// cache once per block size
+    #[serde(default, skip_serializing_if = "is_false")]
+    pub obj: bool,
+}
+
+fn is_false(x: &bool) -> bool {
+    !*x
 }
 
 fn is_zero(x: &u32) -> bool {
@@ -137,10 +145,36 @@ pub struct Stats {
     pub hits: u64,
     pub evictions: u64,
     pub alias_pairs: u64,
+    pub objects: u64,
+}
+
+/// hook H8: weak handles to everything the cache accounts for (read-only, no lookup). Plans that are no
+/// longer accounted for in the cache but are still alive although no client holds them are kept by the
+/// cache outside its own book-keeping; they count towards the bound.
+fn hidden_check(at: usize, st: &mut Stats) -> Result<(), Fail> {
+    WEAKS.with(|w| {
+        let mut w = w.borrow_mut();
+        for (k, h) in verif_plan_cache::snapshot_weak() {
+            w.insert(k, h);
+        }
+        // forget sizes whose plan is gone
+        w.retain(|_, h| h.strong_count() > 0);
+    });
+    let (after_keys, _, _) = verif_plan_cache::snapshot();
+    let hidden: Vec<u16> = WEAKS.with(|w| w.borrow().iter().filter(|(k, w)| !after_keys.contains(k) && w.strong_count() > 0).map(|(k, _)| *k).collect());
+    if after_keys.len() + hidden.len() > verif_plan_cache::CAPACITY {
+        return Err(Fail {
+            oracle: "capacity-hidden".into(),
+            detail: format!("{} plans in the map plus {} evicted ones still kept alive by the cache (sizes {:?}) exceed the capacity {}", after_keys.len(), hidden.len(), hidden, verif_plan_cache::CAPACITY),
+            at,
+        });
+    }
+    st.weak_checks += 1;
+    Ok(())
 }
 
 pub fn execute(h: &History, refs: &mut HashMap<(u16, u16, u8), Observed>) -> Result<Stats, Fail> {
-    let mut st = Stats { client_crashes: 0, weak_checks: 0, clock_jumps: 0, jumped_s: 0, requests: 0, max_cached: 0, hits: 0, evictions: 0, alias_pairs: 0 };
+    let mut st = Stats { client_crashes: 0, weak_checks: 0, clock_jumps: 0, jumped_s: 0, requests: 0, max_cached: 0, hits: 0, evictions: 0, alias_pairs: 0, objects: 0 };
     let mut prev: Option<Req> = None;
     for (at, r) in h.reqs.iter().enumerate() {
         PROGRESS.fetch_add(1, std::sync::atomic::Ordering::SeqCst);
@@ -170,6 +204,40 @@ pub fn execute(h: &History, refs: &mut HashMap<(u16, u16, u8), Observed>) -> Res
             let _ = guarded(|| SourceBlockEncoder::new(0, &cfg, &data));
             st.client_crashes += 1;
             check_snapshot(at)?;
+            continue;
+        }
+        if r.obj {
+            // an object of two blocks, k + 1 and k symbols: Encoder::new asks the cache once per block size
+            let (before_keys, _, _) = verif_plan_cache::snapshot();
+            let kt = 2 * r.k as u64 + 1;
+            let oti = ObjectTransmissionInformation::new(kt * r.t as u64, r.t, 2, 1, 1);
+            let mut x = 0x0B1E_C700u64 ^ ((r.k as u64) << 24) | ((r.t as u64) << 8) | r.data_seed as u64;
+            let mut data = vec![0u8; (kt * r.t as u64) as usize];
+            Rng::new(crate::prng::splitmix64(&mut x)).fill(&mut data);
+            let got = guarded(|| Encoder::new(&data, oti).get_block_encoders().iter().map(observe).collect::<Vec<Observed>>());
+            let got = match got {
+                Ok(g) => g,
+                Err(p) => return Err(Fail { oracle: format!("panic:{}", panic_class(&p)), detail: format!("Encoder::new for blocks of {} and {} symbols, T={} panicked: {p}", r.k + 1, r.k, r.t), at }),
+            };
+            let split = (r.k as usize + 1) * r.t as usize;
+            let want = guarded(|| vec![observe(&SourceBlockEncoder::verif_new_unplanned(0, &oti, &data[..split], 250)), observe(&SourceBlockEncoder::verif_new_unplanned(1, &oti, &data[split..], 250))]);
+            let want = match want {
+                Ok(w) => w,
+                Err(p) => return Err(Fail { oracle: format!("reference-panic:{}", panic_class(&p)), detail: p, at }),
+            };
+            if got != want {
+                return Err(Fail { oracle: "transparency".into(), detail: format!("the block encoders of an object with blocks of {} and {} symbols (T={}) differ from the un-cached single-thread encoders", r.k + 1, r.k, r.t), at });
+            }
+            let n = check_snapshot(at)?;
+            hidden_check(at, &mut st)?;
+            let (after_keys, _, _) = verif_plan_cache::snapshot();
+            if before_keys.iter().any(|k| !after_keys.contains(k)) {
+                st.evictions += 1;
+            }
+            st.max_cached = st.max_cached.max(n);
+            st.requests += 1;
+            st.objects += 1;
+            prev = None;
             continue;
         }
         let cfg = ObjectTransmissionInformation::new(0, r.t, 0, 1, 1);
@@ -207,27 +275,8 @@ pub fn execute(h: &History, refs: &mut HashMap<(u16, u16, u8), Observed>) -> Res
             return Err(Fail { oracle: "transparency".into(), detail: format!("{what} of the encoder for K={} T={} differ from the un-cached single-thread encoder", r.k, r.t), at });
         }
         let n = check_snapshot(at)?;
-        // hook H8: weak handles to everything the cache accounts for (read-only, no lookup)
-        WEAKS.with(|w| {
-            let mut w = w.borrow_mut();
-            for (k, h) in verif_plan_cache::snapshot_weak() {
-                w.insert(k, h);
-            }
-            // forget sizes whose plan is gone
-            w.retain(|_, h| h.strong_count() > 0);
-        });
+        hidden_check(at, &mut st)?;
         let (after_keys, _, _) = verif_plan_cache::snapshot();
-        // plans that are no longer accounted for in the cache but are still alive although no client
-        // holds them: kept by the cache outside its own book-keeping; they count towards the bound
-        let hidden: Vec<u16> = WEAKS.with(|w| w.borrow().iter().filter(|(k, w)| !after_keys.contains(k) && w.strong_count() > 0).map(|(k, _)| *k).collect());
-        if after_keys.len() + hidden.len() > verif_plan_cache::CAPACITY {
-            return Err(Fail {
-                oracle: "capacity-hidden".into(),
-                detail: format!("{} plans in the map plus {} evicted ones still kept alive by the cache (sizes {:?}) exceed the capacity {}", after_keys.len(), hidden.len(), hidden, verif_plan_cache::CAPACITY),
-                at,
-            });
-        }
-        st.weak_checks += 1;
         if before_keys.iter().any(|k| !after_keys.contains(k)) {
             st.evictions += 1;
         }
@@ -257,11 +306,17 @@ pub fn generate(seed: u64) -> History {
     while reqs.len() < n {
         if r.chance(1, 60) {
             // a rejected (oversized) request
-            reqs.push(Req { k: 56404 + 1000 * r.below(9) as u16, t: 1, data_seed: 0, jump_s: 0 });
+            reqs.push(Req { k: 56404 + 1000 * r.below(9) as u16, t: 1, data_seed: 0, jump_s: 0, obj: false });
         }
         if jumps && r.chance(1, 30) {
             let s = *r.pick(&[1u32, 30, 59, 60, 61, 120, 600, 3600, 86_400, 2_592_000]);
-            reqs.push(Req { k: 0, t: 0, data_seed: 0, jump_s: s });
+            reqs.push(Req { k: 0, t: 0, data_seed: 0, jump_s: s, obj: false });
+        }
+        if r.chance(1, 10) {
+            // an object whose two block sizes are k + 1 and k (k from the pool, so that the sizes are
+            // sometimes cached, sometimes not, and the cache is at any fill level)
+            reqs.push(Req { k: (*r.pick(&pool)).min(129), t: 4, data_seed: r.below(4) as u8, jump_s: 0, obj: true });
+            continue;
         }
         match r.below(11) {
             10 => {
@@ -274,7 +329,7 @@ pub fn generate(seed: u64) -> History {
                     trio.reverse();
                 }
                 for k in trio {
-                    reqs.push(Req { k, t: 4, data_seed: r.below(2) as u8, jump_s: 0 });
+                    reqs.push(Req { k, t: 4, data_seed: r.below(2) as u8, jump_s: 0, obj: false });
                 }
             }
             0 => {
@@ -282,7 +337,7 @@ pub fn generate(seed: u64) -> History {
                 let (t, step) = *r.pick(&[(1024u16, 64u16), (4096, 16), (16384, 4), (32768, 2)]);
                 let k1 = r.range(1, 12) as u16;
                 let k2 = k1 + step * r.range(1, 2) as u16;
-                let mut pair = [Req { k: k1, t, data_seed: r.below(4) as u8, jump_s: 0 }, Req { k: k2, t, data_seed: r.below(4) as u8, jump_s: 0 }];
+                let mut pair = [Req { k: k1, t, data_seed: r.below(4) as u8, jump_s: 0, obj: false }, Req { k: k2, t, data_seed: r.below(4) as u8, jump_s: 0, obj: false }];
                 if r.chance(1, 2) {
                     pair.swap(0, 1);
                 }
@@ -290,19 +345,19 @@ pub fn generate(seed: u64) -> History {
             }
             1 | 2 => {
                 // walk through the pool (fills and overflows the cache)
-                reqs.push(Req { k: pool[i % pool.len()], t: 4, data_seed: r.below(4) as u8, jump_s: 0 });
+                reqs.push(Req { k: pool[i % pool.len()], t: 4, data_seed: r.below(4) as u8, jump_s: 0, obj: false });
                 i += 1;
             }
             3 => {
                 // a hot size requested again and again
-                reqs.push(Req { k: pool[0], t: 4, data_seed: r.below(4) as u8, jump_s: 0 });
+                reqs.push(Req { k: pool[0], t: 4, data_seed: r.below(4) as u8, jump_s: 0, obj: false });
             }
             4 => {
                 let t = *r.pick(&[1u16, 2, 8, 16, 63, 64, 65, 1280]);
-                reqs.push(Req { k: *r.pick(&pool), t, data_seed: r.below(4) as u8, jump_s: 0 });
+                reqs.push(Req { k: *r.pick(&pool), t, data_seed: r.below(4) as u8, jump_s: 0, obj: false });
             }
             _ => {
-                reqs.push(Req { k: *r.pick(&pool), t: 4, data_seed: r.below(4) as u8, jump_s: 0 });
+                reqs.push(Req { k: *r.pick(&pool), t: 4, data_seed: r.below(4) as u8, jump_s: 0, obj: false });
             }
         }
     }
@@ -338,7 +393,7 @@ pub fn run(ctx: &Ctx) -> i32 {
         eprintln!("HARNESS-ERROR: the clock interposer does not move std::time::Instant");
         return 2;
     }
-    let mut total = Stats { client_crashes: 0, weak_checks: 0, clock_jumps: 0, jumped_s: 7, requests: 0, max_cached: 0, hits: 0, evictions: 0, alias_pairs: 0 };
+    let mut total = Stats { client_crashes: 0, weak_checks: 0, clock_jumps: 0, jumped_s: 7, requests: 0, max_cached: 0, hits: 0, evictions: 0, alias_pairs: 0, objects: 0 };
     let mut violations = vec![];
     let mut runs = 0u64;
     let mut sample = None;
@@ -349,10 +404,10 @@ pub fn run(ctx: &Ctx) -> i32 {
         if run == 0 {
             // the extremes of the legal range once per batch: the largest block the code supports
             // (a miss, later a hit), the smallest, and the last size whose K' is below the maximum
-            h.reqs.insert(0, Req { k: 56403, t: 1, data_seed: 0, jump_s: 0 });
-            h.reqs.insert(1, Req { k: 1, t: 1, data_seed: 0, jump_s: 0 });
-            h.reqs.push(Req { k: 56403, t: 1, data_seed: 1, jump_s: 0 });
-            h.reqs.push(Req { k: 55844, t: 1, data_seed: 0, jump_s: 0 });
+            h.reqs.insert(0, Req { k: 56403, t: 1, data_seed: 0, jump_s: 0, obj: false });
+            h.reqs.insert(1, Req { k: 1, t: 1, data_seed: 0, jump_s: 0, obj: false });
+            h.reqs.push(Req { k: 56403, t: 1, data_seed: 1, jump_s: 0, obj: false });
+            h.reqs.push(Req { k: 55844, t: 1, data_seed: 0, jump_s: 0, obj: false });
         }
         if run == 0 {
             sample = Some(json!({"requests": h.reqs.len(), "head": &h.reqs[..12.min(h.reqs.len())]}));
@@ -370,6 +425,7 @@ pub fn run(ctx: &Ctx) -> i32 {
                 total.hits += st.hits;
                 total.evictions += st.evictions;
                 total.alias_pairs += st.alias_pairs;
+                total.objects += st.objects;
             }
             Err(f) => {
                 // (the watchdog only watches requests, not the minimisation that follows)
@@ -426,7 +482,7 @@ pub fn run(ctx: &Ctx) -> i32 {
         "flavour": "sequential (no shuttle: std Mutex/OnceLock, shipped capacity, real thread-local storage, one OS thread)",
         "capacity": verif_plan_cache::CAPACITY,
         "histories": runs, "requests": total.requests, "cache_hits": total.hits, "evictions_observed": total.evictions,
-        "max_plans_cached": total.max_cached, "client_crashes_injected": total.client_crashes, "hidden_retention_checks": total.weak_checks, "clock_jumps_injected": total.clock_jumps, "simulated_idle_seconds": total.jumped_s,
+        "max_plans_cached": total.max_cached, "client_crashes_injected": total.client_crashes, "hidden_retention_checks": total.weak_checks, "two_block_objects_through_encoder_new": total.objects, "clock_jumps_injected": total.clock_jumps, "simulated_idle_seconds": total.jumped_s,
         "clock_seam": "LD_PRELOAD interposer on clock_gettime/gettimeofday/time with a simulator-owned offset (sim/src/clockshim.c)", "back_to_back_requests_with_block_lengths_equal_mod_65536": total.alias_pairs,
         "wall_s": wall, "violations": violations.len(), "sample_history": sample, "tier": ctx.tier(), "seed": ctx.seed,
     });
